@@ -12,8 +12,9 @@ EXTRACT = ['configsvc']
 LEAN_TARGETS = ['DeepModel.Props.C13']
 AUDIT = 'DeepModel/Audit/C13.lean'
 DRIVER = 'DeepModel/Driver/C13.lean'
-BUDGET = {'quick': 700, 'thorough': 8000}
-RULE = ('op sequences (1..15 ops, thorough ..40): register (3 locations only, so most registrations share file+line '
+BUDGET = {'quick': 850, 'thorough': 8000}
+RULE = ('[line-granular preemption, oracle only: 6 victim/intruder pairs x the victim parked before its k-th line in '
+        'tracepoint_config.py, k = 1..24] op sequences (1..15 ops, thorough ..40): register (3 locations only, so most registrations share file+line '
         'with another; unique watch as the distinguishing tag; varied args; 5% with an unknown stage), unregister (live handle, already '
         'unregistered handle, never issued handle), service answers through LongPoll.poll against a scripted fake '
         'channel (UPDATE with 0..3 tracepoints on the same locations, NO_CHANGE; ts_nanos arbitrary, not monotone), apply tasks run one at a time in a random order (35% of cases: '
@@ -56,6 +57,8 @@ def gen_case(rng, tier):
 
 
 def gen(rng, tier):
+    for c in svcref.preempt_cases():
+        yield c
     while True:
         yield gen_case(rng, tier)
 
@@ -83,10 +86,14 @@ def corpus():
 
 
 def run_impl(case):
+    if case['kind'] == 'preempt':
+        return svcbench.run_preempt(case)
     return svcbench.run_ops(case['ops'])
 
 
 def oracle(case, obs):
+    if case['kind'] == 'preempt':
+        return svcref.preempt_oracle(case, obs)
     v = []
     ref = svcref.Reference()
     for n, (op, t) in enumerate(zip(case['ops'], obs['trace'])):
@@ -96,7 +103,7 @@ def oracle(case, obs):
             v.append(f'op {n}: register_tracepoint did not return a TracepointRegistration')
         ref.apply(op)
         want = sorted(ref.live.values())
-        if sorted(t['custom']) != want:
+        if t.get('custom') is not None and sorted(t['custom']) != want:
             v.append(f'after op {n} ({op["op"]} {op.get("handle", op.get("tag", ""))}): registered in code '
                      f'{sorted(t["custom"])}, the register/unregister history leaves {want}')
         if n and op['op'] in ('register', 'unregister') and t['polled'] != obs['trace'][n - 1]['polled']:
@@ -110,6 +117,8 @@ def oracle(case, obs):
 
 
 def model_request(case, obs):
+    if case['kind'] == 'preempt':
+        return None          # the model has no regions inside update_new_config / add_custom / remove_custom
     return {'ops': svcref.driver_ops(case['ops'])}
 
 
@@ -131,16 +140,23 @@ def _shared_removals(case):
 
 
 def label(case, obs):
+    if case['kind'] == 'preempt':
+        return 'preempt/%s-vs-%s/%s' % (case['victim']['op'], case['intruder']['op'],
+                                        'parked' if obs.get('reached') else 'beyond-last-line')
     ks = [o['op'] for o in case['ops']]
-    return ('shared-loc-removal' if _shared_removals(case) else 'removal' if 'unregister' in ks else 'no-removal') + \
+    return ('degraded/' if obs.get('degraded') else '') + ('shared-loc-removal' if _shared_removals(case) else 'removal' if 'unregister' in ks else 'no-removal') + \
         ('/service' if 'poll' in ks else '') + ('/settled' if obs['trace'] and obs['trace'][-1]['queued'] + obs['trace'][-1]['pre'] + obs['trace'][-1]['holding'] == 0 else '/in-flight')
 
 
 def nontrivial(case, obs):
+    if case['kind'] == 'preempt':
+        return bool(obs.get('reached'))
     return _shared_removals(case) > 0
 
 
 def shrink(case):
+    if case['kind'] == 'preempt':
+        return
     ops = case['ops']
     for n in range(len(ops) - 1, 0, -1):
         yield {'kind': 'seq', 'ops': ops[:n]}
